@@ -290,10 +290,48 @@ func (g *gen) composeTest(cls string, profile string, helpers []*Method, foreign
 		}
 	}
 	stmts := g.guard(b.stmts, helpers)
+	stmts = append(stmts, g.refStatements(profile, stmts)...)
 	// any order
 	out := make([]stmt, len(stmts))
 	for i, j := range g.r.Perm(len(stmts)) {
 		out[i] = stmts[j]
+	}
+	return out
+}
+
+// refStatements: method references passed as arguments. Thread::sleep / System.out::print* anywhere (the findings
+// at their lines are left open), Assert::assertTrue only where it cannot change any expected finding: the body
+// asserts directly anyway and does not call an assertion of that name.
+func (g *gen) refStatements(profile string, body []stmt) []stmt {
+	switch profile {
+	case "dup", "noassert", "helper", "mixed":
+	default:
+		return nil // bodies with an exact number of calls stay as drawn
+	}
+	var out []stmt
+	if g.r.Chance(1, 9) {
+		out = append(out, g.buildRef(sleepRefForms[g.r.Intn(len(sleepRefForms))], "ref:sleep"))
+	}
+	if g.r.Chance(1, 10) {
+		out = append(out, g.buildRef(printRefForms[g.r.Intn(len(printRefForms))], "ref:print"))
+	}
+	if g.r.Chance(1, 14) {
+		out = append(out, g.buildRef(neutralRefForms[0], "ref:neutral"))
+	}
+	if g.r.Chance(1, 6) {
+		f := assertRefForms[g.r.Intn(len(assertRefForms))]
+		direct, sameName := false, false
+		for _, c := range collect(body) {
+			if c.Kind == KindAssert {
+				direct = true
+				if c.Name == f.name {
+					sameName = true
+				}
+			}
+		}
+		if direct && !sameName {
+			out = append(out, g.buildRef(f, "ref:assert"))
+		}
 	}
 	return out
 }
@@ -434,6 +472,10 @@ func (g *gen) composeHelper(withAssert bool) []stmt {
 	g.addForms(b, plainForms, "plain", n, false, false)
 	if len(b.stmts) > 0 {
 		g.addForms(b, newForms, "new", g.weighted(0, 0, 1), true, false)
+		if g.r.Chance(1, 12) {
+			// a method reference in a helper that tests call
+			b.stmts = append(b.stmts, g.buildRef(sleepRefForms[g.r.Intn(len(sleepRefForms))], "ref:sleep"))
+		}
 	}
 	out := make([]stmt, len(b.stmts))
 	for i, j := range g.r.Perm(len(b.stmts)) {
@@ -452,6 +494,12 @@ func (g *gen) composeOther() []stmt {
 		g.addAssertGroup(b, g.r.Pick(DocumentedAssertionPrefixes), g.weighted(1, 2, 5, 6), false)
 	}
 	g.addForms(b, plainForms, "plain", g.weighted(0, 1, 2), false, false)
+	if g.r.Chance(1, 10) {
+		b.stmts = append(b.stmts, g.buildRef(sleepRefForms[g.r.Intn(len(sleepRefForms))], "ref:sleep"))
+	}
+	if g.r.Chance(1, 10) {
+		b.stmts = append(b.stmts, g.buildRef(printRefForms[g.r.Intn(len(printRefForms))], "ref:print"))
+	}
 	if g.r.Chance(1, 8) {
 		b.stmts = nil // empty body
 	}
@@ -488,6 +536,7 @@ func (g *gen) decorate(stmts []stmt, sty style) []stmt {
 		if len(a.lines) == 1 && len(b.lines) == 1 && a.what != "decoy" && b.what != "decoy" {
 			m := stmt{lines: []string{a.lines[0] + " " + b.lines[0]}, what: a.what + "+" + b.what}
 			m.calls = append(append([]Call{}, a.calls...), b.calls...)
+			m.refs = append(append([]Call{}, a.refs...), b.refs...)
 			out = append(out[:i], append([]stmt{m}, out[i+2:]...)...)
 		}
 	}
@@ -523,6 +572,10 @@ func (g *gen) decorate(stmts []stmt, sty style) []stmt {
 			for _, c := range s.calls {
 				c.Line += base
 				w.calls = append(w.calls, c)
+			}
+			for _, c := range s.refs {
+				c.Line += base
+				w.refs = append(w.refs, c)
 			}
 		}
 		w.lines = append(w.lines, tail...)
